@@ -336,17 +336,23 @@ fn content_error_everywhere<M: ZooMsg + ?Sized>(c: &[u8], rest: &[u8]) -> bool {
             Err(_) => None,
         }
     };
+    // the search below is quadratic in the frame length: not for the rare 64 KiB frames
+    if c.len() > 2048 {
+        return false;
+    }
     if is_content(c) != Some(true) {
         return false;
     }
     let mut all = c.to_vec();
     all.extend_from_slice(rest);
     let mut k = c.len();
-    while k <= all.len() {
+    let mut steps = 0;
+    while k <= all.len() && steps < 512 {
         if is_content(&all[..k]) != Some(true) {
             return false;
         }
         k += M::ALIGN.max(1);
+        steps += 1;
     }
     if is_content(&all) != Some(true) {
         return false;
